@@ -41,10 +41,14 @@ def cases(tier, seed):
                 for rows in [[("bilinear", "eq0")], [("affine", "ranged"), ("affine", "eqoff")], [("sphere", "upper")],
                              [("sphere", "eq0"), ("bilinear", "lower")], [("cubic", "eqoff")], []]:
                     table.append((vk, obj, rows))
-    for vk, obj, rows in table:
+    for ti, (vk, obj, rows) in enumerate(table):
         for (ri, rho) in enumerate(RHOS):
             for (di, dt) in enumerate(DTS):
                 out.append({"vk": vk, "obj": obj, "rows": [list(r) for r in rows], "rho": rho, "dt": dt})
+        # the same problem returning its matrices in other storage forms (duplicate COO entries = sums, CSR, CSC)
+        for fi, fmt in enumerate(("coo_dup", "csr", "csc")):
+            if tier == "quick" or ti % 3 == fi:
+                out.append({"vk": vk, "obj": obj, "rows": [list(r) for r in rows], "rho": RHOS[(ti + fi) % 3], "dt": DTS[(ti + 2 * fi) % 3], "fmt": fmt})
     # inertia-revealing linear solver + inertia_correction (symmetric step solver): step for THIS dt, or failure
     for hi in range(3):
         for rows in ([], [["affine", "eq0"]], [["sphere", "upper"]]):
@@ -239,7 +243,7 @@ def run_case(case):
     from pgfmc.drive.run import make_params, RecordLinear
 
     n = len(case["vk"])
-    spec = S.mk(n, case["obj"], [tuple(r) for r in case["rows"]], case["vk"])
+    spec = S.mk(n, case["obj"], [tuple(r) for r in case["rows"]], case["vk"], fmt=case.get("fmt", "coo"))
     m = len(case["rows"])
     rho, dt = case["rho"], case["dt"]
     prob = UserProblem(spec)
@@ -292,7 +296,7 @@ def run_case(case):
                         scale = max(1.0, float(np.max(np.abs(s))), float(np.max(np.abs(xn))), float(np.max(np.abs(yn), initial=0)))
                         nontriv = A.any() or (m > 0 and not prob.jac_const and Re.cons_violation > 1e-3)
                         if nontriv:
-                            keys.append(f"{spec['tag']}|{bi}{yi}{ei}{dmode}|{at['active']}|{rho}|{dt}")
+                            keys.append(f"{spec['tag']}|{spec.get('fmt')}|{bi}{yi}{ei}{dmode}|{at['active']}|{rho}|{dt}")
                         for ss, ls in SOLVERS:
                             params, P, ev = P_of(ss, ls)
                             it0 = Iterate(P, params, xb, y, ev)
